@@ -154,7 +154,16 @@ fn run(c: &J) -> J {
             };
             outs.push(r);
         }
-        // Rust-level API on the same values
+        // Rust-level API on the same values.  Evaluating the expressions may have run the garbage
+        // collector (long lists allocate enough), which moves values: fetch the variables again
+        // instead of using pointers taken before.
+        let mut vals: Vec<Value> = Vec::new();
+        for n in &names {
+            match module.get(n) {
+                Some(v) => vals.push(v),
+                None => return json!({"setup_err": {"err": "missing", "msg": n}, "where": "values"}),
+            }
+        }
         let hashes: Vec<J> = vals
             .iter()
             .map(|v| match v.get_hashed() {
